@@ -28,21 +28,28 @@ def run_go(exe, cases, timeout=600):
     return json.loads(out)
 
 
-def run_coq(work, name, cases, results, shard=400):
-    """Return list of (index, code) mismatches."""
-    mism = []
+def _coq_shard(args):
+    work, name, s, cs, rs = args
+    rc, out = C.coq_eval(work, name, rtgen.coq_cases_file(cs, rs))
+    if rc != 0:
+        raise RuntimeError("coqc failed on generated cases file:\n" + out[-3000:])
+    m = re.search(r"M\s*=\s*(\[.*?\])\s*:\s*list", out, re.S)
+    if not m:
+        raise RuntimeError("cannot parse coqc output:\n" + out[-2000:])
+    return [(s + int(a), int(b)) for a, b in re.findall(r"\((\d+),\s*(\d+)\)", m.group(1))]
+
+
+def run_coq(work, name, cases, results, shard=250):
+    """Return list of (index, code) mismatches; shards are compiled in parallel."""
+    from concurrent.futures import ThreadPoolExecutor
+    jobs = []
     for s in range(0, len(cases), shard):
-        cs, rs = cases[s:s + shard], results[s:s + shard]
-        rc, out = C.coq_eval(work, "%s_%d" % (name, s // shard), rtgen.coq_cases_file(cs, rs))
-        if rc != 0:
-            raise RuntimeError("coqc failed on generated cases file:\n" + out[-3000:])
-        m = re.search(r"M\s*=\s*(\[.*?\])\s*:\s*list", out, re.S)
-        if not m:
-            raise RuntimeError("cannot parse coqc output:\n" + out[-2000:])
-        body = m.group(1)
-        for a, b in re.findall(r"\((\d+),\s*(\d+)\)", body):
-            mism.append((s + int(a), int(b)))
-    return mism
+        jobs.append((work, "%s_%d" % (name, s // shard), s, cases[s:s + shard], results[s:s + shard]))
+    mism = []
+    with ThreadPoolExecutor(max_workers=14) as ex:
+        for r in ex.map(_coq_shard, jobs):
+            mism.extend(r)
+    return sorted(mism)
 
 
 def evaluate(work, exe, name, cases):
